@@ -78,7 +78,7 @@ STAGES = {
     "C19": [S("reads", "^TestC19$", quick=2500, thorough=120000, shards=(3, 16)),
             S("writes", "^TestC19Write$", quick=800, thorough=40000, shards=(1, 8)),
             S("concurrent-race", "^TestC19Concurrent$", quick=300, thorough=20000, shards=(2, 16), race=True)],
-    "C20": [S("lag", "^TestC20Lag$"),
+    "C20": [S("lag", "^TestC20Lag$", shards=(6, 6)),
             S("histories", "^TestC20$", quick=120, thorough=1500, shards=(6, 16))],
 }
 
